@@ -523,6 +523,7 @@ func genHandshake(o *Out, tier string, r *Rng) {
 	for i := 0; i < n/2; i++ {
 		genPerformJoin(o, r, i)
 	}
+	genInviteV3Fixed(o, r)
 	for i := 0; i < n/3; i++ {
 		genInviteV3(o, r, i)
 	}
@@ -1312,12 +1313,27 @@ func execInviteV3(args []string) string {
 	invited, _ := spec.NewUserID("@alice:hs1", true)
 	inviterKey := hsKey("inviter-room-key")
 	content := map[string]interface{}{"membership": args[4]}
+	switch args[4] {
+	case "~missing":
+		delete(content, "membership")
+	case "~num":
+		content["membership"] = 5
+	case "~null":
+		content["membership"] = nil
+	}
 	if args[6] == "1" {
 		content["pad"] = strings.Repeat("x", 70000)
 	}
 	cj, _ := json.Marshal(content)
+	if args[4] == "~notobject" {
+		cj = []byte("5")
+	}
+	ptype := args[3]
+	if ptype == "-" {
+		ptype = ""
+	}
 	sk := "placeholder"
-	proto := gmsl.ProtoEvent{SenderID: string(spec.SenderIDFromPseudoIDKey(inviterKey)), RoomID: string(unhx(args[2])), Type: args[3],
+	proto := gmsl.ProtoEvent{SenderID: string(spec.SenderIDFromPseudoIDKey(inviterKey)), RoomID: string(unhx(args[2])), Type: ptype,
 		StateKey: &sk, PrevEvents: []string{"$prev"}, AuthEvents: []string{}, Depth: 5, Content: cj}
 	invitedSender := spec.SenderIDFromPseudoIDKey(hsInviteeKey)
 	var stripped []gmsl.InviteStrippedState
@@ -1360,8 +1376,8 @@ func execInviteV3(args []string) string {
 	var c struct {
 		Membership string `json:"membership"`
 	}
-	if out.Type() == args[3] && out.StateKeyEquals(string(invitedSender)) && out.RoomID().String() == roomID.String() &&
-		json.Unmarshal(out.Content(), &c) == nil && c.Membership == args[4] && string(out.SenderID()) == proto.SenderID {
+	if out.Type() == ptype && out.StateKeyEquals(string(invitedSender)) && out.RoomID().String() == roomID.String() &&
+		json.Unmarshal(out.Content(), &c) == nil && (c.Membership == args[4] || strings.HasPrefix(args[4], "~")) && string(out.SenderID()) == proto.SenderID {
 		shape = "1"
 	}
 	var u struct {
@@ -1381,19 +1397,54 @@ func execInviteV3(args []string) string {
 	return "ok:sig=" + sig + ":shape=" + shape + ":stripped=" + cnt
 }
 
-func genInviteV3(o *Out, r *Rng, i int) {
-	ver := pickDev(r, 85, "org.matrix.msc4014", "99", "", "10", "12")
-	p := 85
+func genInviteV3(o *Out, r *Rng, i int) { genInviteV3Fix(o, r, i, hsFix{}, "") }
+
+// genInviteV3Fixed: every proto event that is not an invite — each wrong type with membership "invite", each other
+// membership (incl. absent / null / non-string / content that is no object) with type m.room.member — alone on the
+// otherwise accepting path.
+func genInviteV3Fixed(o *Out, r *Rng) {
+	for _, typ := range append([]string{"m.room.power_levels", "m.room.message"}, hsWrongTypes...) {
+		genInviteV3Fix(o, r, 1000, hsFix{typ: "t:" + typ, happy: true}, "")
+	}
+	for _, m := range []string{"join", "leave", "ban", "knock", "Invite", "~missing", "~null", "~num", "~notobject"} {
+		genInviteV3Fix(o, r, 1000, hsFix{happy: true}, m)
+	}
+}
+
+func genInviteV3Fix(o *Out, r *Rng, i int, fix hsFix, fixMembership string) {
+	pq := func(q int) int {
+		if fix.happy {
+			return 100
+		}
+		return q
+	}
+	ver := pickDev(r, pq(85), "org.matrix.msc4014", "99", "", "10", "12")
+	p := pq(85)
 	room := "!room:hs2"
 	protoRoom := pickDev(r, p, room, "!elsewhere:hs2")
-	typ := pickDev(r, 90, spec.MRoomMember, "m.room.power_levels")
-	membership := pickDev(r, p, "invite", "join", "leave")
-	sender := pickDev(r, 92, "ok", "err")
-	big := pickDev(r, 93, "0", "1")
-	known := pickDev(r, 60, "1", "0", "err")
-	stripped := pickDev(r, 50, "0", "1", "3")
-	stateq := pickDev(r, 70, "2", "0", "err")
-	cur := pickDev(r, 70, "m:leave", "m:join", "m:invite", "m:", "err")
+	typ := pickDev(r, pq(88), spec.MRoomMember, "m.room.power_levels", "m.room.message", "x.custom", "m.room.Member", "-")
+	if strings.HasPrefix(fix.typ, "t:") {
+		typ = fix.typ[2:]
+		if typ == "" {
+			typ = "-"
+		}
+	}
+	membership := pickDev(r, p, "invite", "join", "leave", "ban", "knock", "Invite", "~missing", "~null", "~num", "~notobject")
+	if fixMembership != "" {
+		membership = fixMembership
+	}
+	sender := pickDev(r, pq(92), "ok", "err")
+	big := pickDev(r, pq(93), "0", "1")
+	known := pickDev(r, pq(60), "1", "0", "err")
+	stripped := pickDev(r, pq(50), "0", "1", "3")
+	stateq := pickDev(r, pq(70), "2", "0", "err")
+	cur := pickDev(r, pq(70), "m:leave", "m:join", "m:invite", "m:", "err")
 	res := o.Do("invitev3", ver, hx([]byte(room)), hx([]byte(protoRoom)), typ, membership, sender, big, known, stripped, stateq, cur)
 	o.Count("invitev3." + res)
+	if typ != spec.MRoomMember || membership != "invite" {
+		o.Count("invitev3.not-an-invite." + res)
+	}
+	if i == 1000 && (fix.typ == "t:m.room.power_levels" || fixMembership == "join") {
+		o.Sample("invitev3 type=" + typ + " membership=" + membership + " -> " + res)
+	}
 }
